@@ -334,15 +334,24 @@ impl<F: PrimeField64, const D: usize> Table<F, D> {
         st.base_traces += 1;
         st.base_rows += h as u64;
         let mut pass = vec![true; h];
-        for r in 0..h {
-            if !self.rel::<EF>(m, r) {
+        if let Some(r) = (0..h).find(|r| !self.rel::<EF>(m, *r)) {
+            // Only traces produced by the repository's generator can get here (the harness'
+            // own filler satisfies the reference by construction).
+            let air_rejects = (0..h).any(|i| failures_at(&self.air, &self.prep, m, i) > 0);
+            if !air_rejects {
+                // AIR and generator agree with each other and disagree with the documented
+                // layout the reference decodes rows with: the harness is stale, no verdict.
                 mach(&format!(
-                    "{} {what}: base trace row {r} ({}) violates the reference relation — \
-                     trace generator and harness layout disagree",
+                    "{} {what}: generated row {r} ({}) violates the reference relation but the AIR accepts \
+                     the whole trace — column layout drift between /repo and the harness",
                     self.cfg,
                     self.kind_name(r, 0)
                 ));
             }
+            // a faulty trace generator is not C11's subject (the AIR rightly refuses its rows)
+            st.bump("generated trace invalid: rejected by reference and by AIR (not a C11 matter)");
+            st.notes.push(format!("{} {what}: the repository's trace generator produced a row violating its relation (row {r}); AIR rejects it too", self.cfg));
+            return vec![false; h];
         }
         for i in 0..h {
             if failures_at(&self.air, &self.prep, m, i) > 0 {
@@ -898,12 +907,21 @@ pub fn run_horner<F: PrimeField64, EF: Field + BasedVectorSpace<F>, const D: usi
         }
         if z.acc0 == EF::ZERO {
             if m.v != generated.v {
-                mach(&format!(
-                    "{cfg} {}: harness row filler and AluAir::trace_to_matrix disagree (layout drift)",
-                    z.name
-                ));
+                let ok = |x: &Mat<F>| (0..h).all(|i| failures_at(&t.air, &t.prep, x, i) == 0);
+                if ok(&generated) && !ok(&m) {
+                    mach(&format!(
+                        "{cfg} {}: AluAir accepts its generator's trace but not the harness' re-fill of the same values (column layout drift)",
+                        z.name
+                    ));
+                }
+                // generator and filler differ: judge the generator's trace on its own
+                // (reference vs AIR) and go on with the filler's, which the reference accepts
+                st.bump("filler != generator");
+                st.notes.push(format!("{cfg} {}: AluAir::trace_to_matrix differs from the reference fill", z.name));
+                let _ = t.check_base::<EF>(env, &mut st, &generated, &format!("generator output, horner len={len} {bpat:?} {}", z.name));
+            } else {
+                st.validated_against_generator += 1;
             }
-            st.validated_against_generator += 1;
         }
         let pass = t.check_base::<EF>(env, &mut st, &m, &format!("horner len={len} {bpat:?} {}", z.name));
         let last = hrows.last().unwrap().0;
